@@ -1368,7 +1368,7 @@ func (ex *Exec) binop(st *State, site ssa.Instruction, op token.Token, xv, yv Va
 	case SVal:
 		if op == token.EQL || op == token.NEQ {
 			// comparing two interface values panics when the identical dynamic type is not comparable
-			if !isConstLike(x) && !isConstLike(y) {
+			if !ex.deepConst(x) && !ex.deepConst(y) {
 				tx := app(SInt, "typeof", x)
 				ex.oblige(st, "cmp", "", site, implies(eq(tx, app(SInt, "typeof", y)), or(app(SBool, "vcomparable", x), app(SBool, "vcomparable", y))), "interface comparison of identical dynamic types: one operand must be comparable in depth (a comparable struct can hold a slice in an interface field)")
 			}
@@ -1387,6 +1387,24 @@ func (ex *Exec) binop(st *State, site ssa.Instruction, op token.Token, xv, yv Va
 	}
 	ex.unsupportedf("binary operator %s on sort %s", op, x.Sort)
 	return nil
+}
+
+// deepConst: an operand whose comparison can never panic - nil, or a boxed value of a type
+// that is comparable and holds no interface at any depth (strings, numbers, pointers, structs
+// of those). Boxed structs that hold an interface (wrapperValue) are not exempt.
+func (ex *Exec) deepConst(t Term) bool {
+	if t.S == "nil_val" {
+		return true
+	}
+	if !isConstLike(t) {
+		return false
+	}
+	var id int
+	if _, err := fmt.Sscanf(t.S, "(box$%d ", &id); err != nil {
+		return false
+	}
+	ty := ex.w.typeByID[id]
+	return ty != nil && types.Comparable(ty) && !holdsInterface(ty, 0)
 }
 
 func isConstLike(t Term) bool {
